@@ -233,6 +233,11 @@ pub fn parse_subgoal(to_parse: &str) -> Result<Goal, String> {
        return parse_operator_goal(&functor_str, &args_str);
     }
 
+    // A goal without arguments can be written with parentheses: go()
+    if args_str.trim().len() == 0 {
+        return Ok(make_goal(&functor_str, vec![]));
+    }
+
     let args = parse_arguments(&args_str)?;
     return Ok(make_goal(&functor_str, args));
 
